@@ -489,3 +489,448 @@ macro_rules! c09_q {
 c09_q!(c09_q_lookup_current_index, 0);
 c09_q!(c09_q_lookup_first_queued_index, 1);
 c09_q!(c09_q_lookup_second_queued_index, 2);
+
+// =====================================================================================
+// C09.L / C07.L / C14.L: the *caller loops* over index candidates, assume/guarantee style (DESIGN 10.7).
+// `IndexTable::get` is replaced by its contract over a harness-chosen candidate list ("the first slot >= sub_index whose
+// partial key matches, else (empty, 0)" — C19 proves find_entry refines exactly this), the value-table confirmation
+// (`ValueTable::has_key_at` / `Column::get_value`) by a symbolic verdict per candidate address. What stays real code is
+// what the seeded changes C07.1 / C09.2 break: the continuation at `sub_index + 1`, the order current index -> every
+// queued older index, the returned (table, slot, address) triple.
+// =====================================================================================
+pub const NC: usize = 4;
+pub static mut CAND_N: usize = 0;
+pub static mut CAND_TABLE: [u16; NC] = [0; NC]; // index table (as_u16) the candidate lives in
+pub static mut CAND_SUB: [usize; NC] = [0; NC]; // its slot in the page (strictly increasing per table)
+pub static mut CAND_OK: [bool; NC] = [false; NC]; // does the value stored at its address carry the key's tail?
+pub static mut GET_CALLS: usize = 0;
+pub fn cand_address(c: usize) -> Address { Address::new(c as u64 + 1, (c % 2) as u8) }
+
+pub fn stub_index_get<Q: LogQuery>(t: &IndexTable, _key: &Key, sub_index: usize, _log: &Q) -> Result<(crate::index::Entry, usize)> {
+	unsafe {
+		GET_CALLS += 1;
+		let mut c = 0;
+		while c < NC {
+			if c < CAND_N && CAND_TABLE[c] == t.id.as_u16() && CAND_SUB[c] >= sub_index {
+				let e = crate::index::verif_kani::mk_entry(cand_address(c), 1, t.id.index_bits());
+				return Ok((e, CAND_SUB[c]))
+			}
+			c += 1;
+		}
+	}
+	Ok((crate::index::verif_kani::empty_entry(), 0))
+}
+
+fn cand_of(tier: usize, offset: u64) -> usize {
+	let mut c = 0;
+	while c < NC { if cand_address(c).offset() == offset && cand_address(c).size_tier() as usize == tier { return c } c += 1; }
+	NC
+}
+
+pub fn stub_has_key_at(t: &ValueTable, index: u64, _key: &TableKey, _log: &LogWriter) -> Result<bool> {
+	let c = cand_of(t.id.size_tier() as usize, index);
+	assert!(c < NC, "C14.L the value table is asked only about addresses that came out of an index entry");
+	Ok(unsafe { CAND_OK[c] })
+}
+
+pub fn stub_get_value<Q: LogQuery>(_key: TableKeyQuery, address: Address, _tables: TablesRef, _log: &Q) -> Result<Option<(u8, u32, Value)>> {
+	let c = cand_of(address.size_tier() as usize, address.offset());
+	assert!(c < NC, "C14.L values are fetched only at addresses that came out of an index entry");
+	if unsafe { CAND_OK[c] } { Ok(Some((address.size_tier(), c as u32 + 1, Vec::new()))) } else { Ok(None) }
+}
+
+/// Candidate lists: `shape` gives the number of candidates in (current, first queued, second queued) index.
+fn setup_candidates(shape: [usize; 3], ids: [u16; 3]) {
+	unsafe {
+		let mut n = 0;
+		let mut t = 0;
+		while t < 3 {
+			let mut k = 0;
+			let mut prev: usize = 0;
+			while k < shape[t] {
+				let s: usize = kani::any();
+				kani::assume(s < 64 && (k == 0 || s > prev));
+				prev = s;
+				CAND_TABLE[n] = ids[t]; CAND_SUB[n] = s; CAND_OK[n] = kani::any();
+				n += 1; k += 1;
+			}
+			t += 1;
+		}
+		CAND_N = n;
+		GET_CALLS = 0;
+	}
+}
+
+/// Specification: the first candidate in table order (current, queue front .. back) and slot order that is confirmed.
+fn spec_first_ok() -> usize {
+	let mut c = 0;
+	unsafe { while c < NC { if c < CAND_N && CAND_OK[c] { return c } c += 1; } }
+	NC
+}
+
+fn chain_column(nq: usize) -> (HashColumn, [u16; 3]) {
+	let col = mini_plain(false);
+	let ids = [crate::index::verif_kani::table(18).id.as_u16(), crate::index::verif_kani::table(16).id.as_u16(), crate::index::verif_kani::table(17).id.as_u16()];
+	{
+		let mut t = col.tables.write();
+		let old = std::mem::replace(&mut t.index, crate::index::verif_kani::table(18));
+		std::mem::forget(old);
+		if nq > 0 {
+			let mut r = col.reindex.write();
+			let old = std::mem::replace(&mut r.queue, static_queue([ReindexEntry::Index(crate::index::verif_kani::table(16)), ReindexEntry::Index(crate::index::verif_kani::table(17))]));
+			std::mem::forget(old);
+		}
+	}
+	(col, ids)
+}
+
+/// search_all_indexes (the write path's lookup): result is the spec's candidate, with its own table, slot and address.
+fn search_case(shape: [usize; 3]) {
+	let nq = if shape[1] + shape[2] > 0 { 2 } else { 0 };
+	let (col, ids) = chain_column(nq);
+	setup_candidates(shape, ids);
+	let overlays = vl::new_overlays();
+	let w = LogWriter::new(&overlays, 1);
+	let key: Key = kani::any();
+	let want = spec_first_ok();
+	{
+		let tables = col.tables.read();
+		let reindex = col.reindex.read();
+		let got = HashColumn::search_all_indexes(&key, &tables, &reindex, &w).unwrap();
+		match got {
+			Some((t, sub, addr)) => {
+				assert!(want < NC, "C09.L a key whose candidates all belong to other keys is reported absent");
+				unsafe {
+					assert!(t.id.as_u16() == CAND_TABLE[want], "C09.L the hit is reported in the index table that holds it (current first, then every queued older index in order)");
+					assert!(sub == CAND_SUB[want], "C09.L the reported slot is the confirmed candidate's slot");
+				}
+				assert!(addr == cand_address(want), "C09.L the reported address is the confirmed candidate's address");
+			},
+			None => assert!(want == NC, "C09.L a confirmed candidate behind colliding neighbours / in a queued older index is found"),
+		}
+	}
+	kani::cover!(want < NC && want > 0);
+	kani::cover!(want == NC && unsafe { CAND_N } > 0);
+	std::mem::forget(w); std::mem::forget(overlays); std::mem::forget(col);
+}
+
+/// HashColumn::get (the read path's lookup): value of the spec's candidate (the stub tags it with rc = c + 1).
+fn get_case(shape: [usize; 3]) {
+	let nq = if shape[1] + shape[2] > 0 { 2 } else { 0 };
+	let (col, ids) = chain_column(nq);
+	setup_candidates(shape, ids);
+	let key: Key = kani::any();
+	let want = spec_first_ok();
+	let view = vl::OvView;
+	let got = col.get(&key, &view).unwrap();
+	match &got {
+		Some((_v, rc)) => assert!(want < NC && *rc == want as u32 + 1, "C09.L get returns the value of the first confirmed candidate (current index, then each queued older index)"),
+		None => assert!(want == NC, "C09.L get finds a key stored behind colliding neighbours or only in a queued older index"),
+	}
+	kani::cover!(want < NC && want > 0);
+	kani::cover!(want == NC && unsafe { CAND_N } > 0);
+	std::mem::forget(got); std::mem::forget(col);
+}
+
+macro_rules! c09_l {
+	($sname:ident, $gname:ident, $shape:expr) => {
+		crate::verif_tbl! {
+			#[kani::proof]
+			#[kani::unwind(12)]
+			#[kani::stub(crate::index::IndexTable::get, stub_index_get)]
+			#[kani::stub(crate::table::ValueTable::has_key_at, stub_has_key_at)]
+			fn $sname() { search_case($shape) }
+		}
+		crate::verif_tbl! {
+			#[kani::proof]
+			#[kani::unwind(12)]
+			#[kani::stub(crate::index::IndexTable::get, stub_index_get)]
+			#[kani::stub(crate::column::Column::get_value, stub_get_value)]
+			fn $gname() { get_case($shape) }
+		}
+	};
+}
+c09_l!(c09_l_search_current_3, c09_l_get_current_3, [3, 0, 0]);
+c09_l!(c09_l_search_cur1_q1_q2, c09_l_get_cur1_q1_q2, [1, 1, 2]);
+c09_l!(c09_l_search_cur0_q2_q2, c09_l_get_cur0_q2_q2, [0, 2, 2]);
+c09_l!(c09_l_search_cur2_q0_q2, c09_l_get_cur2_q0_q2, [2, 0, 2]);
+
+// =====================================================================================
+// C09.R: one reindex batch and the hand-over to the next queued index (HashColumn::{reindex, drop_index}).
+// `IndexTable::entries` is replaced by "page p of the source index is this symbolic page"; the loop over pages and
+// entries, the progress cursor and the drop decision are real code.
+// =====================================================================================
+pub static mut RX_PAGES: [[u64; 64]; 2] = [[0; 64]; 2];
+pub static mut RX_BASE: u64 = 0;
+pub fn stub_entries<Q: LogQuery>(_t: &IndexTable, chunk_index: u64, _log: &Q) -> Result<[crate::index::Entry; 64]> {
+	let mut out = [crate::index::verif_kani::empty_entry(); 64];
+	let p = unsafe { chunk_index - RX_BASE } as usize;
+	assert!(p < 2, "harness bound: at most two source pages per batch");
+	let mut i = 0;
+	while i < 64 { out[i] = crate::index::verif_kani::entry_from(unsafe { RX_PAGES[p][i] }); i += 1; }
+	Ok(out)
+}
+pub static mut DROPPED_FILES: usize = 0;
+pub fn stub_drop_file(t: IndexTable) -> Result<()> { unsafe { DROPPED_FILES += 1; } std::mem::forget(t); Ok(()) }
+
+/// `left` = number of source pages not yet migrated when the batch starts (0, 1 or 2).
+fn reindex_batch_case(left: u64) {
+	let (col, _ids) = chain_column(2);
+	let src_bits = 16u8;
+	let total = crate::index::verif_kani::table(src_bits).id.total_chunks();
+	let start = total - left;
+	col.reindex.read().progress.store(start, Ordering::Relaxed);
+	// sparse symbolic pages
+	let mut live = [[false; 64]; 2];
+	unsafe {
+		RX_BASE = start;
+		let mut p = 0;
+		while p < 2 {
+			let mut i = 0; while i < 64 { RX_PAGES[p][i] = 0; i += 1; }
+			// live slots at concrete positions with concrete content (first, middle, last; the second page also slot 1): with a
+			// symbolic emptiness test the batch Vec grows under symbolic branches and CBMC went to 23 GB. The entry arithmetic
+			// (address, recover_key_prefix) is decided for all values in C20.M2 / C09.G1; this harness decides the scheduling.
+			RX_PAGES[p][0] = 0x0123_4567_89ab_cde0 + p as u64; RX_PAGES[p][31 + p] = 0x00ff_0000_0000_1230 + p as u64; RX_PAGES[p][63] = 0xfedc_ba98_7654_3210 - p as u64;
+			if p == 1 { RX_PAGES[p][1] = 77; }
+			let mut i = 0; while i < 64 { live[p][i] = RX_PAGES[p][i] != 0; i += 1; }
+			p += 1;
+		}
+	}
+	let log = crate::log::verif_kani::mk_log_plain(true);
+	let batch = col.reindex(&log).unwrap();
+	let after = col.reindex.read().progress.load(Ordering::Relaxed);
+	assert!(after == total, "C09.R a batch below the size limit migrates every remaining page of the source index");
+	assert!((batch.drop_index == Some(crate::index::verif_kani::table(src_bits).id)) == (left > 0), "C09.R the source index is dropped exactly when its last page has been handed over");
+	// every live entry of every page in [start, after) is in the batch, in order, with its address and recovered key prefix
+	let mut n = 0;
+	let src = crate::index::verif_kani::table(src_bits);
+	let mut p = 0;
+	while p < 2 {
+		if (p as u64) < left {
+			let mut i = 0;
+			while i < 64 {
+				if live[p][i] {
+					assert!(n < batch.batch.len(), "C09.R every non-empty entry of a migrated page is in the batch");
+					let e = crate::index::verif_kani::entry_from(unsafe { RX_PAGES[p][i] });
+					let (k, a) = batch.batch[n];
+					assert!(a == e.address(src_bits), "C09.R batch entry carries the entry's value address");
+					assert!(k == src.recover_key_prefix(start + p as u64, e), "C09.R batch entry carries the key prefix recovered from (page, partial key)");
+					n += 1;
+				}
+				i += 1;
+			}
+		}
+		p += 1;
+	}
+	assert!(n == batch.batch.len(), "C09.R the batch holds nothing but the live entries of the migrated pages");
+	kani::cover!(n == 3 * left as usize + if left == 2 { 1 } else { 0 });
+	std::mem::forget(batch); std::mem::forget(log); std::mem::forget(col); std::mem::forget(src);
+}
+
+crate::verif_tbl! {
+	#[kani::proof]
+	#[kani::unwind(66)]
+	#[kani::stub(crate::index::IndexTable::entries, stub_entries)]
+	fn c09_r_reindex_batch_last_two_pages() { reindex_batch_case(2) }
+}
+crate::verif_tbl! {
+	#[kani::proof]
+	#[kani::unwind(66)]
+	#[kani::stub(crate::index::IndexTable::entries, stub_entries)]
+	fn c09_r_reindex_batch_last_page() { reindex_batch_case(1) }
+}
+crate::verif_tbl! {
+	#[kani::proof]
+	#[kani::unwind(66)]
+	#[kani::stub(crate::index::IndexTable::entries, stub_entries)]
+	fn c09_r_reindex_batch_nothing_left() { reindex_batch_case(0) }
+}
+
+/// drop_index(id): if `id` is the queue front, the front is removed (its file dropped) and the progress cursor restarts
+/// at page 0 for the next queued index; any other id changes nothing.
+crate::verif_tbl! {
+	#[kani::proof]
+	#[kani::unwind(12)]
+	#[kani::stub(crate::index::IndexTable::drop_file, stub_drop_file)]
+	fn c09_r_drop_index_restarts_progress() {
+		let (col, _ids) = chain_column(2);
+		let p0: u64 = kani::any();
+		col.reindex.read().progress.store(p0, Ordering::Relaxed);
+		let which: u8 = kani::any();
+		kani::assume(which < 3);
+		let id = crate::index::verif_kani::table([16u8, 17, 20][which as usize]).id;
+		unsafe { DROPPED_FILES = 0; }
+		col.drop_index(id).unwrap();
+		let r = col.reindex.read();
+		if which == 0 {
+			assert!(r.queue.len() == 1, "C09.R dropping the migrated index removes it from the queue");
+			assert!(matches!(r.queue.front(), Some(ReindexEntry::Index(t)) if t.id.index_bits() == 17), "C09.R the next queued index becomes the migration source");
+			assert!(r.progress.load(Ordering::Relaxed) == 0, "C09.R migration of the next queued index starts at its first page");
+			assert!(unsafe { DROPPED_FILES } == 1, "C09.R the migrated index file is removed");
+		} else {
+			assert!(r.queue.len() == 2 && r.progress.load(Ordering::Relaxed) == p0 && unsafe { DROPPED_FILES } == 0, "C09.R dropping an index that is not the migration source changes nothing");
+		}
+		kani::cover!(which == 0 && p0 > 0);
+		drop(r);
+		std::mem::forget(col);
+	}
+}
+
+// =====================================================================================
+// C14.W / C09.N: HashColumn::write_plan — how the index follows the value tables inside one record.
+// Value-table work (`Column::write_existing_value_plan`, `write_new_value_plan`) and page work
+// (`IndexTable::write_insert_plan`, `write_remove_plan`) are contracts that record their calls (both are decided on
+// their own: C07.R2 / C06 and C09.P1-P4); what is real is the glue that must keep index and values consistent:
+// a moved value rewrites its index entry (in place if it lives in the current index, as a new entry if it was found in
+// a queued older index), a removed value removes the entry from the index it was found in, a new key gets its value
+// written once and its entry inserted into the current index, and a full page queues the current index and retries
+// in an index twice the size.
+// =====================================================================================
+pub static mut WX_SHAPE: u8 = 0; // 0: (Some(outcome), _)   1: (None, Some(new address))   2: (None, None)
+pub static mut WX_NEWADDR: u64 = 0;
+pub static mut WX_CALLS: usize = 0;
+pub static mut WX_ARG_ADDR: u64 = 0;
+pub static mut WX_ARG_RC: bool = false;
+pub fn stub_write_existing<K, V: AsRef<[u8]>>(_key: &TableKey, _t: TablesRef, address: Address, _c: &Operation<K, V>, _l: &mut LogWriter,
+	_s: Option<&ColumnStats>, ref_counted: bool) -> Result<(Option<PlanOutcome>, Option<Address>)> {
+	unsafe {
+		WX_CALLS += 1; WX_ARG_ADDR = address.as_u64(); WX_ARG_RC = ref_counted;
+		Ok(match WX_SHAPE { 0 => (Some(PlanOutcome::Written), None), 1 => (None, Some(Address::from_u64(WX_NEWADDR))), _ => (None, None) })
+	}
+}
+pub static mut WN_CALLS: usize = 0;
+pub fn stub_write_new(_key: &TableKey, _t: TablesRef, _val: &[u8], _l: &mut LogWriter, _s: Option<&ColumnStats>) -> Result<Address> {
+	unsafe { WN_CALLS += 1; Ok(Address::from_u64(WX_NEWADDR)) }
+}
+pub const IXC: usize = 4;
+pub static mut IX_N: usize = 0;
+pub static mut IX_KIND: [u8; IXC] = [0; IXC]; // 1 insert, 2 remove
+pub static mut IX_BITS: [u8; IXC] = [0; IXC];
+pub static mut IX_ADDR: [u64; IXC] = [0; IXC];
+pub static mut IX_SUB: [usize; IXC] = [0; IXC]; // usize::MAX = None
+pub static mut IX_KEY0: [u8; IXC] = [0; IXC];
+pub static mut IX_FULL: usize = 0; // the first IX_FULL inserts answer NeedReindex
+pub fn stub_ix_insert(t: &IndexTable, key: &Key, address: Address, sub_index: Option<usize>, _l: &mut LogWriter) -> Result<PlanOutcome> {
+	unsafe {
+		assert!(IX_N < IXC, "harness bound: index calls");
+		IX_KIND[IX_N] = 1; IX_BITS[IX_N] = t.id.index_bits(); IX_ADDR[IX_N] = address.as_u64(); IX_SUB[IX_N] = sub_index.unwrap_or(usize::MAX); IX_KEY0[IX_N] = key[0];
+		IX_N += 1;
+		if IX_N <= IX_FULL { Ok(PlanOutcome::NeedReindex) } else { Ok(PlanOutcome::Written) }
+	}
+}
+pub fn stub_ix_remove(t: &IndexTable, key: &Key, sub_index: usize, _l: &mut LogWriter) -> Result<PlanOutcome> {
+	unsafe {
+		assert!(IX_N < IXC, "harness bound: index calls");
+		IX_KIND[IX_N] = 2; IX_BITS[IX_N] = t.id.index_bits(); IX_ADDR[IX_N] = 0; IX_SUB[IX_N] = sub_index; IX_KEY0[IX_N] = key[0];
+		IX_N += 1;
+		Ok(PlanOutcome::Written)
+	}
+}
+fn wx_reset() { unsafe { WX_CALLS = 0; WN_CALLS = 0; IX_N = 0; IX_FULL = 0; WX_NEWADDR = kani::any(); WX_SHAPE = kani::any(); kani::assume(WX_SHAPE < 3); } }
+
+/// op: 0 Set, 1 Reference, 2 Dereference. The key exists: one confirmed candidate in the current index (found_in = 0) or in
+/// the queued 16-bit index (found_in = 1).
+fn write_existing_case(op: u8, found_in: usize) {
+	let (col, ids) = chain_column(2);
+	wx_reset();
+	unsafe {
+		CAND_N = 1; CAND_TABLE[0] = ids[found_in]; CAND_SUB[0] = kani::any(); kani::assume(CAND_SUB[0] < 64); CAND_OK[0] = true; GET_CALLS = 0;
+	}
+	let key: Key = kani::any();
+	let overlays = vl::new_overlays();
+	let mut w = LogWriter::new(&overlays, 1);
+	let change: Operation<Key, RcValue> = match op { 0 => Operation::Set(key, vec![1u8, 2, 3].into()), 1 => Operation::Reference(key), _ => Operation::Dereference(key) };
+	let r = col.write_plan(&change, &mut w);
+	assert!(r.is_ok(), "C14.W an operation on an existing key succeeds");
+	unsafe {
+		assert!(WX_CALLS == 1 && WN_CALLS == 0, "C14.W an existing key is updated in place, never inserted a second time");
+		assert!(WX_ARG_ADDR == cand_address(0).as_u64(), "C14.W the value operation goes to the address the index entry names");
+		assert!(WX_ARG_RC == false, "C14.W the column's reference-counting mode is passed on");
+		match WX_SHAPE {
+			0 => assert!(IX_N == 0, "C14.W a value updated in place leaves the index alone"),
+			1 => {
+				assert!(IX_N == 1 && IX_KIND[0] == 1, "C14.W a value that moved gets its index entry rewritten in the same record");
+				assert!(IX_BITS[0] == 18, "C14.W the rewritten entry goes to the current index");
+				assert!(IX_ADDR[0] == WX_NEWADDR && IX_KEY0[0] == key[0], "C14.W the rewritten entry names the value's new address");
+				if found_in == 0 { assert!(IX_SUB[0] == CAND_SUB[0], "C14.W an entry found in the current index is overwritten in its slot (no duplicate)"); }
+				else { assert!(IX_SUB[0] == usize::MAX, "C14.W an entry found in a queued older index is re-inserted into the current one"); }
+			},
+			_ => {
+				assert!(IX_N == 1 && IX_KIND[0] == 2, "C14.W a removed value takes its index entry with it in the same record");
+				assert!(IX_BITS[0] == [18u8, 16][found_in] && IX_SUB[0] == CAND_SUB[0] && IX_KEY0[0] == key[0], "C14.W the entry is removed from the index and slot where it was found");
+			},
+		}
+		kani::cover!(WX_SHAPE == 1);
+		kani::cover!(WX_SHAPE == 2);
+	}
+	std::mem::forget(r); std::mem::forget(change); std::mem::forget(w); std::mem::forget(overlays); std::mem::forget(col);
+}
+
+/// The key does not exist (every candidate belongs to another key).
+fn write_missing_case(op: u8) {
+	let col = mini_plain(false);
+	{
+		let mut t = col.tables.write();
+		let old = std::mem::replace(&mut t.index, crate::index::verif_kani::table(18));
+		std::mem::forget(old);
+	}
+	wx_reset();
+	let id18 = crate::index::verif_kani::table(18).id.as_u16();
+	unsafe {
+		CAND_N = 1; CAND_TABLE[0] = id18; CAND_SUB[0] = 7; CAND_OK[0] = false; GET_CALLS = 0;
+		IX_FULL = kani::any(); kani::assume(IX_FULL <= 2);
+	}
+	let key: Key = kani::any();
+	let overlays = vl::new_overlays();
+	let mut w = LogWriter::new(&overlays, 1);
+	let change: Operation<Key, RcValue> = match op { 0 => Operation::Set(key, vec![1u8, 2, 3].into()), 1 => Operation::Reference(key), 2 => Operation::Dereference(key),
+		3 => Operation::ReferenceTree(key), _ => Operation::DereferenceTree(key) };
+	let r = col.write_plan(&change, &mut w);
+	unsafe {
+		assert!(WX_CALLS == 0, "C14.W no value of another key is touched");
+		if op == 0 {
+			let full = IX_FULL;
+			assert!(WN_CALLS == 1, "C09.N a new key's value is written exactly once, however often the index has to grow");
+			assert!(IX_N == full + 1, "C09.N the index insertion is retried once per growth");
+			let t = col.tables.read();
+			let q = col.reindex.read();
+			assert!(t.index.id.index_bits() as usize == 18 + full, "C09.N each full page doubles the index");
+			assert!(q.queue.len() == full, "C09.N every outgrown index is queued for migration, none is dropped");
+			if full >= 1 { assert!(matches!(q.queue.front(), Some(ReindexEntry::Index(x)) if x.id.index_bits() == 18), "C09.N the oldest index is migrated first"); }
+			if full == 2 { assert!(matches!(q.queue.back(), Some(ReindexEntry::Index(x)) if x.id.index_bits() == 19), "C09.N queue order follows growth order"); }
+			assert!(IX_BITS[full] as usize == 18 + full && IX_ADDR[full] == WX_NEWADDR && IX_SUB[full] == usize::MAX && IX_KEY0[full] == key[0], "C09.N the entry finally lands in the current index with the value's address");
+			assert!(matches!(r, Ok(PlanOutcome::NeedReindex)) == (full > 0) && matches!(r, Ok(PlanOutcome::Written)) == (full == 0), "C09.N growth is reported to the caller");
+			kani::cover!(full == 2);
+		} else if op <= 2 {
+			assert!(matches!(r, Ok(PlanOutcome::Skipped)) && WN_CALLS == 0 && IX_N == 0, "C14.W reference / dereference of a missing key changes nothing");
+		} else {
+			assert!(r.is_err() && WN_CALLS == 0 && IX_N == 0, "C14.W tree operations are refused on a hash column without side effects");
+		}
+	}
+	std::mem::forget(r); std::mem::forget(change); std::mem::forget(w); std::mem::forget(overlays); std::mem::forget(col);
+}
+
+macro_rules! c14_w {
+	($name:ident, $f:ident ( $($a:expr),* )) => {
+		crate::verif_tbl! {
+			#[kani::proof]
+			#[kani::unwind(12)]
+			#[kani::stub(crate::index::IndexTable::get, stub_index_get)]
+			#[kani::stub(crate::table::ValueTable::has_key_at, stub_has_key_at)]
+			#[kani::stub(crate::column::Column::write_existing_value_plan, stub_write_existing)]
+			#[kani::stub(crate::column::Column::write_new_value_plan, stub_write_new)]
+			#[kani::stub(crate::index::IndexTable::write_insert_plan, stub_ix_insert)]
+			#[kani::stub(crate::index::IndexTable::write_remove_plan, stub_ix_remove)]
+			fn $name() { $f($($a),*) }
+		}
+	};
+}
+c14_w!(c14_w_existing_set_in_current, write_existing_case(0, 0));
+c14_w!(c14_w_existing_set_in_queued, write_existing_case(0, 1));
+c14_w!(c14_w_existing_dereference_in_current, write_existing_case(2, 0));
+c14_w!(c14_w_existing_dereference_in_queued, write_existing_case(2, 1));
+c14_w!(c14_w_existing_reference_in_current, write_existing_case(1, 0));
+c14_w!(c09_n_new_key_set_grows_index, write_missing_case(0));
+c14_w!(c14_w_missing_reference, write_missing_case(1));
+c14_w!(c14_w_missing_dereference, write_missing_case(2));
+c14_w!(c14_w_missing_tree_op, write_missing_case(3));
